@@ -318,6 +318,30 @@ func encForgeries(f *family, g *genuineMsg, r *prng.R) []mutation {
 			ps := append([][]byte(nil), packets...)
 			ps[pi] = mpEncode(q)
 			out = append(out, mutation{fmt.Sprintf("f%d.%s", pi, label), joinMsg(hdrObj, ps)})
+			// the same forgery with the authenticator list emptied / cut before the
+			// victim's position / with only the victim's entry zeroed: the attacker
+			// cannot compute the victim's authenticator, but can leave it out
+			authIdx := ctIdx - 1
+			if q.Arr[authIdx].K == mvArr {
+				for _, variant := range []string{"noauth", "cutauth", "zeroauth"} {
+					q2 := q.clone()
+					switch variant {
+					case "noauth":
+						q2.Arr[authIdx].Arr = nil
+					case "cutauth":
+						if g.openerPos < len(q2.Arr[authIdx].Arr) {
+							q2.Arr[authIdx].Arr = q2.Arr[authIdx].Arr[:g.openerPos]
+						}
+					case "zeroauth":
+						if g.openerPos < len(q2.Arr[authIdx].Arr) {
+							q2.Arr[authIdx].Arr[g.openerPos] = mvBinOf(make([]byte, 32))
+						}
+					}
+					ps2 := append([][]byte(nil), packets...)
+					ps2[pi] = mpEncode(q2)
+					out = append(out, mutation{fmt.Sprintf("f%d.%s.%s", pi, label, variant), joinMsg(hdrObj, ps2)})
+				}
+			}
 		}
 		old, ok := secretbox.Open(nil, p.Arr[ctIdx].Data, nonce(pi), &key)
 		if !ok {
